@@ -18,6 +18,18 @@ NAMESPACE = "C03"
 TIE_A = ["Term.", "code:fuzzylite.term.Discrete.membership", "code:fuzzylite.term.Discrete.x", "code:fuzzylite.term.Discrete.y",
          "code:fuzzylite.term.Discrete.to_xy", "code:fuzzylite.term.Discrete.create", "code:fuzzylite.term.Term.discretize",
          "code:fuzzylite.term.Linear.membership", "code:fuzzylite.term.Constant.membership"]
+# `Term.__init__` and the method `is_monotonic` every shape class uses (theorems `code_termInit`, `code_isMonotonic`)
+TIE_A += ["code:fuzzylite.term.Term.__init__"]
+TIE_A += ["code:fuzzylite.term.Arc.is_monotonic", "code:fuzzylite.term.Bell.is_monotonic",
+          "code:fuzzylite.term.Binary.is_monotonic", "code:fuzzylite.term.Concave.is_monotonic",
+          "code:fuzzylite.term.Cosine.is_monotonic", "code:fuzzylite.term.Gaussian.is_monotonic",
+          "code:fuzzylite.term.GaussianProduct.is_monotonic", "code:fuzzylite.term.PiShape.is_monotonic",
+          "code:fuzzylite.term.Ramp.is_monotonic", "code:fuzzylite.term.Rectangle.is_monotonic",
+          "code:fuzzylite.term.SemiEllipse.is_monotonic", "code:fuzzylite.term.Sigmoid.is_monotonic",
+          "code:fuzzylite.term.SigmoidDifference.is_monotonic", "code:fuzzylite.term.SigmoidProduct.is_monotonic",
+          "code:fuzzylite.term.Spike.is_monotonic", "code:fuzzylite.term.SShape.is_monotonic",
+          "code:fuzzylite.term.Trapezoid.is_monotonic", "code:fuzzylite.term.Triangle.is_monotonic",
+          "code:fuzzylite.term.ZShape.is_monotonic"]
 RULE = ("all 20 shape classes + Constant x parameterisations (both directions, vertical edges a=b / c=d, infinite shoulders, "
         "reversed Rectangle/SemiEllipse; parameter pools: decimals k/100, dyadics k/16, random doubles) x heights {1, 0.5, 0.3, "
         "random} x x in {every parameter and derived breakpoint with its two float neighbours, midpoints, random interior / "
